@@ -7,8 +7,8 @@ git -C /repo worktree add --detach "$WT" "${BASE:-HEAD}" >/dev/null 2>&1 || exit
 if ! git -C "$WT" apply "$P"; then echo "PATCH DOES NOT APPLY"; git -C /repo worktree remove --force "$WT"; exit 3; fi
 for id in "$@"; do
   echo "=== $id on $(basename $(dirname $P))/$(basename $P) (base ${BASE:-HEAD})"
-  VERIF_REPO="$WT" /usr/bin/python3 /verif/run_check.py "$id" --tier "${TIER:-quick}" 2>/dev/null | grep -E "^(VIOLATION|KNOWN-FINDING|HARNESS-ERROR|BUILD-ERROR|C[0-9]+ tier)" | cut -c1-260
+  VERIF_RUN_TAG="t$$" VERIF_REPO="$WT" /usr/bin/python3 /verif/run_check.py "$id" --tier "${TIER:-quick}" 2>/dev/null | grep -E "^(VIOLATION|KNOWN-FINDING|HARNESS-ERROR|BUILD-ERROR|C[0-9]+ tier)" | cut -c1-260
   echo "rc=${PIPESTATUS[0]}"
 done
 git -C /repo worktree remove --force "$WT"
-rm -rf /verif/build/run/*_scratch_*
+rm -rf /verif/build/run/*_scratch_t$$
